@@ -1,10 +1,20 @@
 #!/usr/bin/env python3
 """prints the prompt for an independent breaking-change sub-agent: property text only, nothing from /verif."""
 import json, sys
+import glob, os
 pid, n = sys.argv[1], int(sys.argv[2]) if len(sys.argv) > 2 else 3
+rnd = sys.argv[3] if len(sys.argv) > 3 else ""          # "" = first round, "2" = second round ...
+prev = []
+if rnd:
+    for mp in sorted(glob.glob("/verif/seeded/%s-s*/meta.json" % pid)):
+        prev.append("  - " + json.load(open(mp)).get("summary", "")[:300].replace("\n", " "))
 p = [json.loads(l) for l in open('/verif/properties.jsonl') if json.loads(l)['id'] == pid][0]
-wt = "/tmp/sw-%s" % pid
-print(f"""You are testing how well a verification effort for the C/C++ library mirmik/igris can detect realistic regressions. You work ONLY inside your own scratch git worktree {wt} (a checkout of the library; create nothing elsewhere except under /tmp/seed-{pid}/). Do NOT read or list anything under /verif, and do not touch /repo.
+wt = "/tmp/sw%s-%s" % (rnd, pid)
+sd = "/tmp/seed%s-%s" % (rnd, pid)
+extra = ""
+if prev:
+    extra = "\nChanges of this kind were already produced by others - yours must be DIFFERENT in routine and in trigger, and preferably harder to notice (correct results on small / short / common inputs, wrong only for rare sizes, long or unusual histories, particular states, second-order effects such as lifetime, aliasing, bounds or state left behind for a later call):\n" + "\n".join(prev) + "\n"
+print(f"""You are testing how well a verification effort for the C/C++ library mirmik/igris can detect realistic regressions. You work ONLY inside your own scratch git worktree {wt} (a checkout of the library; create nothing elsewhere except under {sd}/). Do NOT read or list anything under /verif, and do not touch /repo.
 
 The property that users of the library rely on:
   Title: {p['title']}
@@ -13,13 +23,14 @@ The property that users of the library rely on:
   Code it is anchored in: {', '.join(p['anchors']['files'])}
   Mechanisms meant to make it hold: {'; '.join(m['name'] + ' (' + m['where'] + ')' for m in p['anchors']['mechanism'])}
 
+{extra}
 Task: produce {n} DIFFERENT changes to the library source in {wt}, each of which
   (1) breaks the property above (for some input / history / schedule the statement is false with the change),
   (2) still compiles, and the library's existing test suite still passes with it
       (build+test: cmake -G Ninja -S {wt} -B {wt}/_build -DCMAKE_BUILD_TYPE=RelWithDebInfo -DCMAKE_C_FLAGS=-Wno-error -DCMAKE_CXX_FLAGS=-Wno-error >/dev/null && cmake --build {wt}/_build >/dev/null && ctest --test-dir {wt}/_build ; note that parts of the anchored code are header-only or not compiled by CMake at all — such code you must at least compile yourself in your demonstration),
   (3) looks like a plausible maintenance edit or refactoring slip (an optimisation, a 'simplification', a changed bound, reordered statements, a changed type, two cooperating sites that each look fine alone) — not sabotage with magic constants,
   (4) needs something SPECIFIC to manifest: a particular input class, length, alignment, multi-step sequence of operations, a particular interleaving or fault point — NOT something ordinary use would expose at once. Vary the kind of trigger across your {n} changes and touch different routines/mechanisms of the property.
-For each change k = 1..{n} write the directory /tmp/seed-{pid}/k/ containing:
+For each change k = 1..{n} write the directory {sd}/k/ containing:
   patch.diff   — `git diff` of the change against the worktree's HEAD (only library files; apply-able with `git apply`)
   demo.cpp (or demo.c / demo.sh + sources) — a small self-contained program, with the exact compile command in a comment on its first line (use -I{wt}; compile the needed library .c/.cpp files directly), that exits non-zero / fails with the change applied and exits 0 without it. You MUST actually run it both ways and confirm.
   meta.json    — {{"property": "{pid}", "summary": "...what was changed...", "needs": "...what it takes to manifest...", "ran": "...commands you ran and their outcome with/without the change, incl. the ctest result with the change..."}}
